@@ -254,16 +254,18 @@ Definition b_hash_map (a : list val) : outcome val :=
   end.
 
 (** types.NewSet *)
+Fixpoint set_items (s : list str) (l : list val) : outcome (list str) :=
+  match l with
+  | [] => Ok s
+  | VStr k :: r => set_items (sadd k s) r
+  | _ :: _ => goerr "set items must be strings or keywords"
+  end.
+
 Definition new_set (v : val) : outcome val :=
   match v with
   | VNil => Ok (VSet [])
   | _ => let* l := get_slice v in
-         let* s := (fix go (s : list str) (l : list val) : outcome (list str) :=
-                      match l with
-                      | [] => Ok s
-                      | VStr k :: r => go (sadd k s) r
-                      | _ :: _ => goerr "set items must be strings or keywords"
-                      end) [] l in
+         let* s := set_items [] l in
          Ok (VSet s)
   end.
 
